@@ -22,8 +22,8 @@ class Missing(Exception):
 
 class Env:
     def __init__(self, obs=None, inp=None, tab=None, ref=None):
-        self.obs = obs or {}
-        self.inp = inp or {}
+        self.obs = obs if obs is not None else {}      # the caller keeps filling its own dict
+        self.inp = inp if inp is not None else {}
         self.tab = tab
         self.ref = ref
 
